@@ -21,39 +21,80 @@ import (
 // ---- register model (one partition per bucket/key)
 
 type regIn struct {
-	Kind string // w | d | r
+	Kind string // w | d | dv | r
 	V    string // value written (md5 hex)
+	ID   string // versioned buckets: the version id the write was given / the id to delete
 }
 
 type regOut struct {
 	V string // value read ("" = absent)
 }
 
-var regModel = porcupine.Model{
-	Init: func() interface{} { return "" },
-	Step: func(state, input, output interface{}) (bool, interface{}) {
-		st := state.(string)
-		in := input.(regIn)
-		switch in.Kind {
-		case "w":
-			return true, in.V
-		case "d":
-			return true, ""
-		default:
-			return output.(regOut).V == st, st
-		}
-	},
-	Equal: func(a, b interface{}) bool { return a.(string) == b.(string) },
-	DescribeOperation: func(input, output interface{}) string {
-		in := input.(regIn)
-		switch in.Kind {
-		case "w":
-			return "write " + short(in.V)
-		case "d":
-			return "delete"
-		}
-		return "read -> " + short(output.(regOut).V)
-	},
+// regModel is the per-key register of an unversioned bucket.
+var regModel = makeRegModel(false)
+
+// verModel is the per-key version stack of a versioning-enabled bucket:
+// writes push, a plain delete pushes a marker, delete-version removes exactly
+// that entry, a read sees the newest remaining entry.
+var verModel = makeRegModel(true)
+
+func makeRegModel(versioned bool) porcupine.Model {
+	return porcupine.Model{
+		Init: func() interface{} { return "" },
+		Step: func(state, input, output interface{}) (bool, interface{}) {
+			st := state.(string)
+			in := input.(regIn)
+			switch in.Kind {
+			case "w":
+				if versioned {
+					e := in.ID + "|" + in.V
+					if st != "" {
+						return true, st + "," + e
+					}
+					return true, e
+				}
+				return true, in.V
+			case "d":
+				if versioned && st != "" {
+					return true, st + ",-"
+				}
+				return true, ""
+			case "dv":
+				parts := strings.Split(st, ",")
+				for i, p := range parts {
+					if strings.HasPrefix(p, in.ID+"|") {
+						parts = append(parts[:i:i], parts[i+1:]...)
+						break
+					}
+				}
+				return true, strings.Join(parts, ",")
+			default:
+				top := st
+				if i := strings.LastIndex(st, ","); i >= 0 {
+					top = st[i+1:]
+				}
+				if top == "-" {
+					top = ""
+				} else if i := strings.Index(top, "|"); i >= 0 {
+					top = top[i+1:]
+				}
+				return output.(regOut).V == top, st
+			}
+		},
+		Equal: func(a, b interface{}) bool { return a.(string) == b.(string) },
+		DescribeOperation: func(input, output interface{}) string {
+			in := input.(regIn)
+			switch in.Kind {
+			case "w":
+				return "write " + short(in.V)
+			case "d":
+				return "delete"
+			case "dv":
+				return "delete-version " + short(in.V)
+			}
+			return "read -> " + short(output.(regOut).V)
+		},
+	}
 }
 
 func short(s string) string {
@@ -169,11 +210,12 @@ type history struct {
 	verOf  map[string]string // version id -> md5 of the put that got it
 	verKey map[string]string // version id -> bucket/key
 	ids    []string
+	delVer map[string]bool // version ids some client has started to delete
 }
 
 func newHistory() *history {
 	return &history{parts: map[string][]porcupine.Operation{}, desc: map[string][]string{}, bodies: map[string][]byte{"d41d8cd98f00b204e9800998ecf8427e": {}},
-		verOf: map[string]string{}, verKey: map[string]string{}}
+		verOf: map[string]string{}, verKey: map[string]string{}, delVer: map[string]bool{}}
 }
 
 func (h *history) tick() int64 { h.seq++; return h.seq }
@@ -263,7 +305,7 @@ func (r *Run) execLin(ci, oi int, op *Op) {
 			h.ids = append(h.ids, id)
 			r.ok("lin.version")
 		}
-		h.add(part, ci, call, ret, regIn{"w", sum}, regOut{}, fmt.Sprintf("put %s (%d bytes)", short(sum), len(body)))
+		h.add(part, ci, call, ret, regIn{Kind: "w", V: sum, ID: resp.Header.Get("x-amz-version-id")}, regOut{}, fmt.Sprintf("put %s (%d bytes)", short(sum), len(body)))
 		r.logf("c%d#%d put %s/%q %s [%d,%d] -> %s", ci, oi, op.B, op.Key, short(sum), call, ret, resp.String())
 		r.stats.Mutations++
 	case "get", "head":
@@ -277,6 +319,9 @@ func (r *Run) execLin(ci, oi int, op *Op) {
 			bk := strings.SplitN(h.verKey[id], "/", 2)
 			resp := r.simple(m, target(bk[0], bk[1], url.Values{"versionId": {id}}), op)
 			r.noPanic(resp, m+" version")
+			if resp.Status == 404 && h.delVer[id] {
+				return // some client is deleting (or has deleted) exactly this version
+			}
 			if resp.Status != 200 {
 				r.linFail("lin.version", m+" of an issued version id fails", "200", resp.String())
 			}
@@ -306,6 +351,29 @@ func (r *Run) execLin(ci, oi int, op *Op) {
 		h.add(part, ci, call, ret, regIn{Kind: "r"}, regOut{val}, fmt.Sprintf("%s -> %s", op.K, short(val)))
 		r.logf("c%d#%d %s %s/%q [%d,%d] -> %s %s", ci, oi, op.K, op.B, op.Key, call, ret, resp.String(), short(val))
 	case "del":
+		if op.Ver != 0 {
+			// delete a specific version: one this key was given earlier in the run
+			var mine []string
+			for _, id := range h.ids {
+				if h.verKey[id] == op.B+"/"+op.Key {
+					mine = append(mine, id)
+				}
+			}
+			if len(mine) == 0 {
+				return
+			}
+			id := mine[(op.Ver-1+len(mine))%len(mine)]
+			h.delVer[id] = true
+			call := h.tick()
+			resp := r.simple("DELETE", target(op.B, op.Key, url.Values{"versionId": {id}}), op)
+			ret := h.tick()
+			mustOK(resp, "DELETE ?versionId")
+			h.add(part, ci, call, ret, regIn{Kind: "dv", V: h.verOf[id], ID: id}, regOut{}, "delete-version "+short(h.verOf[id]))
+			r.logf("c%d#%d delver %s/%q %s [%d,%d] -> %s", ci, oi, op.B, op.Key, short(h.verOf[id]), call, ret, resp.String())
+			r.probe("delete-version in a concurrent run")
+			r.stats.Mutations++
+			return
+		}
 		call := h.tick()
 		resp := r.simple("DELETE", target(op.B, op.Key, nil), op)
 		ret := h.tick()
@@ -331,7 +399,7 @@ func (r *Run) execLin(ci, oi int, op *Op) {
 				r.linFail("lin.integrity", "copy reports an ETag that is no upload's MD5", "some upload", v)
 			}
 			h.add(src, ci, call, ret, regIn{Kind: "r"}, regOut{v}, "copy-read -> "+short(v))
-			h.add(part, ci, call, ret, regIn{"w", v}, regOut{}, "copy-write "+short(v))
+			h.add(part, ci, call, ret, regIn{Kind: "w", V: v, ID: fmt.Sprintf("copy%d", call)}, regOut{}, "copy-write "+short(v))
 			r.stats.Mutations++
 		case resp.Status == 404 && resp.Code == "NoSuchKey":
 			h.add(src, ci, call, ret, regIn{Kind: "r"}, regOut{""}, "copy-read -> <absent>")
@@ -442,7 +510,7 @@ func (r *Run) execLin(ci, oi int, op *Op) {
 		}
 		h.add("u:"+u.ID, ci, call, ret, mpuIn{Kind: "complete", List: list}, mpuOut{resp.OK()}, fmt.Sprintf("complete %v ok=%v", list, resp.OK()))
 		if resp.OK() {
-			h.add("k:"+u.Bucket+"/"+u.Key, ci, call, ret, regIn{"w", sum}, regOut{}, "complete-write "+short(sum))
+			h.add("k:"+u.Bucket+"/"+u.Key, ci, call, ret, regIn{Kind: "w", V: sum, ID: fmt.Sprintf("mpu%d", call)}, regOut{}, "complete-write "+short(sum))
 			r.probe("complete succeeded in a concurrent run")
 			r.stats.Mutations++
 		}
@@ -536,6 +604,9 @@ func (r *Run) afterLin() {
 	for _, p := range parts {
 		ops := h.parts[p]
 		m := regModel
+		if r.Plan.Config.Versioned {
+			m = verModel
+		}
 		cl := "lin.register"
 		if strings.HasPrefix(p, "u:") {
 			m, cl = mpuModel, "lin.mpu"
